@@ -50,6 +50,8 @@ def gen_value(rng, code, strings_nonempty=False):
         return f64(rng.choice(F64_SPECIAL)) if rng.random() < 0.4 else rng.uniform(-1e8, 1e8)
     if code == "S":
         n = rng.choice([0, 1, 2, 3, 4, 5, 7, 8, 11]) if not strings_nonempty else rng.choice([1, 2, 3, 4, 5, 8])
+        if rng.random() < 0.04:
+            n = rng.choice([127, 128, 129, 200])      # longer than the |S128 placeholder dtype of parsed String variables
         return "".join(rng.choice(PRINTABLE) for _ in range(n))
     info = np.iinfo(NP[code])
     return int(rng.choice([info.min, info.max, 0, 1, info.max - 1])) if rng.random() < 0.4 else rng.randint(int(info.min), int(info.max))
@@ -66,8 +68,9 @@ def gen_base(rng, name, codes=CODES, max_rank=3, **kw):
 def gen_seq(rng, name, depth=0, codes=CODES, inner=True, nrows=None):
     ncols = rng.randint(1, 4)
     cols = []
+    two_strings = "S" in codes and ncols >= 2 and rng.random() < 0.25     # records whose string sizes are permutations of one another
     for j in range(ncols):
-        cols.append(("base", "%s_c%d" % (name, j), rng.choice(codes), (), ()))
+        cols.append(("base", "%s_c%d" % (name, j), "S" if (two_strings and j < 2) else rng.choice(codes), (), ()))
     has_inner = inner and depth < 1 and rng.random() < 0.4
     if has_inner:
         cols.append(gen_seq(rng, name + "_in", depth + 1, codes, inner=False, nrows=0)[:3] + ((),))
